@@ -28,14 +28,6 @@ def parseDis (s : String) : Option (Option (List Id)) :=
 
 def showId (i : Id) : String := if i.isEmpty then "-" else String.ofList (i.map hexChar)
 
-/-- cut the flat id list into segments of the given sizes (oldest first); result child first -/
-def mkSegs (commits : Bool) : List Nat → List Id → Nat → List Seg → List Seg
-  | [], _, _, acc => acc
-  | n :: ns, ids, start, acc =>
-    let own := ids.take n
-    mkSegs commits ns (ids.drop n) (start + n)
-      ({ numParent := start, commits := if commits then own else [], changes := if commits then [] else own } :: acc)
-
 def showRes : Resolution Id → String
   | .noMatch => "none"
   | .ambiguous => "amb"
